@@ -296,6 +296,29 @@ theorem proposer_fields_outside_signbytes :
     let m : MsgC := { MsgC.empty with header := some v, timestamp := 1, rcBuildHeight := 5 }
     msgSignBytes m = msgSignBytes { m with timestamp := 2, rcBuildHeight := 6, vdf := some [1, 2, 3] } := by decide
 
+/-! ## RLP-backed transactions: one signed Ethereum payload, one wrapper -/
+
+/-- `VerifyRLPBytes` ties the submitted wrapper to the raw Ethereum transaction by comparing
+`GetHash()` of the transaction rebuilt from the raw RLP with `GetHash()` of the submitted one — the
+digest of the WHOLE canonical transaction, Signature container (claimed public key, raw RLP) included;
+`GetSignBytes()` would leave the claimed key out (facts regenerated from fsm/ethereum.go) -/
+theorem rlp_binding_src : Gen.Proto.rlpBindingDigests = ["compare.GetHash", "tx.GetHash"] ∧
+    Gen.Proto.src_GetHash = "protoBytes, err := Marshal(x); if err != nil { return nil, err }; return crypto.Hash(protoBytes), nil" := by
+  decide +kernel
+
+/-- the binding is injective in EVERY wrapper field: two well-formed wrappers whose canonical bytes
+both equal the bytes of the wrapper rebuilt from one raw Ethereum transaction are the same wrapper —
+same claimed public key, same payload, same heights, fee, memo, ids, nonce (`H` collision-free) -/
+theorem rlp_wrapper_unique (rebuilt : Bytes) (t₁ t₂ : TxContent) (h₁ : t₁.WF) (h₂ : t₂.WF)
+    (b₁ : canon t₁ = rebuilt) (b₂ : canon t₂ = rebuilt) : t₁ = t₂ :=
+  Proto.canon_injective t₁ t₂ h₁ h₂ (b₁.trans b₂.symm)
+
+/-- what would be lost by comparing sign bytes instead: they are blind to the Signature container, so
+wrappers naming different keys would both be bound -/
+theorem signbytes_blind_to_claimed_key (t : TxContent) (g₁ g₂ : SigC) :
+    signBytes { t with signature := some g₁ } = signBytes { t with signature := some g₂ } := by
+  simp [signBytes, TxContent.unsigned]
+
 /-!
 # C19 (c) — decoding untrusted bytes
 
